@@ -133,9 +133,56 @@ type disagreement struct {
 	sig, msg string
 }
 
-// compare evaluates the oracle ignoring the indices in skip. "" = agrees.
-func (in *Inst) compare(ref *Ref, elems []json.RawMessage, skip map[int]bool) *disagreement {
+// effective applies the two alternatives the reference allows for representations that are
+// not well-formed, given the response:
+//   - a key component of a type gqlgen's lenient scalars coerce (bool / number for ID /
+//     String): the entity of the coerced key is accepted instead of null + error;
+//   - a batch (multi-resolver type, same key) that contains a representation whose key
+//     VALUE cannot be unmarshalled (object / list for ID / String ...): gqlgen rejects that
+//     batch call as a whole before calling the resolver; "every representation of that
+//     batch is null, with an error" is accepted. Anything else - in particular an entity at
+//     the index of another representation - is not.
+//
+// rejected reports the resolvers of batches accepted as rejected.
+func effective(ref *Ref, elems []json.RawMessage) (eff []Want, rejected map[string]bool) {
+	eff = append([]Want(nil), ref.Want...)
+	rejected = map[string]bool{}
+	for i := range eff {
+		w := &eff[i]
+		if w.Status == "fail" && w.Lenient != "" && string(elems[i]) != "null" && sameJSON(string(elems[i]), w.Lenient) {
+			w.Status, w.JSON = "value", w.Lenient
+		}
+	}
 	for i, w := range ref.Want {
+		ent, ok := entities[w.Type]
+		if !ok || !ent.Multi || !w.IllTyped || w.Lenient != "" || rejected[w.Type+"/"+w.Chosen] {
+			continue
+		}
+		var batch []int
+		allNull := true
+		for j, o := range ref.Want {
+			if o.Type == w.Type && o.Chosen == w.Chosen {
+				batch = append(batch, j)
+				if string(elems[j]) != "null" {
+					allNull = false
+				}
+			}
+		}
+		_ = i
+		if allNull {
+			rejected[w.Type+"/"+w.Chosen] = true
+			for _, j := range batch {
+				eff[j].Status, eff[j].JSON = "fail", ""
+			}
+		}
+	}
+	return eff, rejected
+}
+
+// compare evaluates the oracle ignoring the indices in skip. nil = agrees.
+func (in *Inst) compare(ref *Ref, elems []json.RawMessage, skip map[int]bool) *disagreement {
+	eff, rejected := effective(ref, elems)
+	for i, w := range eff {
 		if skip[i] {
 			continue
 		}
@@ -161,7 +208,7 @@ func (in *Inst) compare(ref *Ref, elems []json.RawMessage, skip map[int]bool) *d
 			}
 		}
 	}
-	lo, hi := ref.ErrBounds(skip)
+	lo, hi := ErrBounds(eff, skip)
 	if len(skip) > 0 { // errors of the ignored indices cannot be told apart
 		hi += len(skip)
 	}
@@ -172,7 +219,15 @@ func (in *Inst) compare(ref *Ref, elems []json.RawMessage, skip map[int]bool) *d
 	if n > hi {
 		return &disagreement{"errors-without-failed-element", fmt.Sprintf("%d errors but at most %d representations failed: %v", n, hi, in.Errs)}
 	}
-	if ref.FaultReached && len(skip) == 0 {
+	faultCallRejected := in.C.Fault != nil && func() bool {
+		for k := range rejected {
+			if strings.HasSuffix(k, "/"+in.C.Fault.Resolver) {
+				return true
+			}
+		}
+		return false
+	}()
+	if ref.FaultReached && len(skip) == 0 && !faultCallRejected {
 		found := false
 		for _, e := range in.Errs {
 			if strings.Contains(e, FaultToken) {
@@ -216,8 +271,14 @@ func knownClasses(c Case, ref *Ref) []knownClass {
 		sels := map[string]bool{}
 		unres := false
 		for _, i := range g {
-			sels[ref.Want[i].Sel] = true
-			if ref.Want[i].Sel == "" {
+			w := ref.Want[i]
+			switch {
+			case w.Sel != "":
+				sels[w.Sel] = true
+			case w.Lenient != "": // gqlgen coerces this key and resolves it
+				sels["lenient:"+w.Chosen] = true
+			default:
+				sels[""] = true
 				unres = true
 			}
 		}
@@ -232,9 +293,6 @@ func knownClasses(c Case, ref *Ref) []knownClass {
 			} else {
 				out = append(out, knownClass{"multi-resolver-batch-key-taken-from-first-representation:mixed-keys-in-batch", skip})
 			}
-		}
-		if t == "MultiReq" && c.Fault != nil && c.Fault.Kind == "nil" && c.Fault.Resolver == "FindManyMultiReqByIDs" {
-			out = append(out, knownClass{"multi-resolver-nil-entity-with-requires-aborts-rest-of-batch", skip})
 		}
 	}
 	return out
